@@ -393,6 +393,13 @@ def gen_c13_extra(ctx, thorough):
     # many small fields across CONTINUATION frames: header list limit
     fields = hdrs(1) + [["x-f%d" % i, "v" * 50] for i in range(200)]
     out.append({'tag': 'header-list-limit', 'cfg': cfg, 'steps': [{"op": "hdr", "sid": 1, "fields": fields, "es": True, "pad": -1, "split": [1000, 2000, 3000, 5000]}]})
+    # the header list a handler is given includes the trailers: request fields and trailer fields share ONE budget
+    for hsz, tsz in ((3000, 3000), (3900, 400), (100, 3950), (2000, 1900)):
+        fields = hdrs(1, "POST") + [["x-f%d" % i, "v" * 90] for i in range(hsz // 128)]
+        trailers = [["x-t%d" % i, "w" * 90] for i in range(tsz // 128)]
+        steps = [{"op": "hdr", "sid": 1, "fields": fields, "es": False, "pad": -1}, {"op": "data", "sid": 1, "n": 5, "es": False, "pad": -1},
+                 {"op": "hdr", "sid": 1, "fields": trailers, "es": True, "pad": -1, "split": [500] if tsz > 1000 else []}, finish(1, n=1)]
+        out.append({'tag': 'trailer-list-limit', 'cfg': cfg, 'steps': steps})
     # oversized and mis-declared bodies
     for body, cl in ((5000, None), (1500, 100), (100, 1500), (2000, 2000), (2001, None)):
         f = hdrs(1, "POST", cl=cl)
